@@ -15,6 +15,9 @@ Proof.
   eexists; split; [reflexivity|]. apply wf_helper_iff. cbn. tauto.
 Qed.
 
+Lemma wf_es_or_pre e b : wf_espec e -> wf_espec (es_or_pre e b).
+Proof. exact (fun H => H). Qed.
+
 Lemma wf_hash_insert hs k v : wf_hash hs -> wf_param v -> wf_hash (map_insert hs k v).
 Proof.
   unfold wf_hash. intros H Hv. induction hs as [|[k' v'] r IH]; cbn [map_insert].
@@ -329,7 +332,8 @@ Section WfStep.
         cinv E. cinv E. okinv E. apply wf_cstate_mk; try assumption.
         eapply push_front_el_wf; [eassumption|exact Hts|eapply raw_string_wf; eassumption].
       - (* raw block text *)
-        cinv E. cinv E. okinv E. apply wf_cstate_mk; try assumption.
+        destruct (slice src _ _) as [txt|]; [|discriminate].
+        cinv E. okinv E. apply wf_cstate_mk; try assumption.
         constructor; [|exact Hts]. apply wf_t_single. eapply raw_string_wf; eassumption.
       - (* block start *)
         cinv E. destruct a as [[e ts1] it1]. cinv E. destruct a as [trim ts2].
@@ -347,16 +351,22 @@ Section WfStep.
           * constructor; [apply wf_t_push_map; assumption|assumption].
           * constructor; [apply wf_mk_helper; exact He|exact Hhs].
       - (* invert *)
-        cinv E. rename a into it0. cinv E. destruct a as [[e ts1] it1]. cinv E. destruct a as [trim ts2].
-        destruct (tag_prologue_wf _ _ _ _ _ _ _ E1 Hts) as [He Hts1].
-        pose proof (process_standalone_statement_wf _ _ _ _ _ _ E2 Hts1) as Hts2.
+        match type of E with (let '(_, _) := ?x in _) = _ => destruct x as [chain_pre ita] end.
+        cinv E. rename a into it0. cinv E. destruct a as [e0 it1].
+        pose proof (wf_es_or_pre e0 chain_pre (parse_expression_wf _ _ _ _ _ _ E1)) as He.
+        set (e := es_or_pre e0 chain_pre) in *. clearbody e.
+        cinv E. rename a into ts1. cinv E. destruct a as [trim ts2].
+        assert (Hts1 : Forall wf_template ts1).
+        { destruct (es_pre e); [eapply remove_previous_whitespace_wf; eassumption|].
+          okinv E2. exact Hts. }
+        pose proof (process_standalone_statement_wf _ _ _ _ _ _ E3 Hts1) as Hts2.
         destruct ts2 as [|t ts3]; [discriminate|]. inversion Hts2; subst.
         destruct (c_hs c1) as [|h hs]; [discriminate|]. inversion Hhs; subst.
         cinv E. rename a into h2. okinv E.
         apply wf_cstate_mk; try assumption.
         constructor; [|assumption].
         assert (Hh2 : wf_helper h2).
-        { eapply wf_set_chain_template; [exact E3| |cbn; assumption].
+        { eapply wf_set_chain_template; [exact E4| |cbn; assumption].
           destruct chain; [apply wf_h_set_chain|]; assumption. }
         destruct chain; [|exact Hh2].
         apply wf_insert_inverse_node; [exact Hh2|apply wf_mk_helper; exact He].
